@@ -3,11 +3,13 @@ package main
 import (
 	"errors"
 	"fmt"
+	"github.com/bluenviron/gomavlib/v3/pkg/dialects/minimal"
 	"io"
 	"net"
 	"strconv"
 	"strings"
 	"sync"
+	"sync/atomic"
 	"time"
 
 	"github.com/bluenviron/gomavlib/v3"
@@ -151,9 +153,21 @@ func genC14(o *hx.Out, tier string) {
 			}
 			p := scn.NewPipe(fmt.Sprintf("dev%d", idx))
 			cause := outs[idx].cause
+			stuck := cause%2 == 1 // on these devices a Write is stuck in the transport when the read fails
+			if stuck {
+				p.BlockWrites()
+			}
 			go func() {
 				p.Feed(frameB)
-				time.Sleep(time.Duration(1+cause%5) * time.Millisecond)
+				if stuck {
+					// the frame event makes the application write; wait until that write sits in the device
+					dl := time.Now().Add(time.Second)
+					for atomic.LoadInt32(&p.BlockedIn) == 0 && time.Now().Before(dl) {
+						time.Sleep(200 * time.Microsecond)
+					}
+				} else {
+					time.Sleep(time.Duration(1+cause%5) * time.Millisecond)
+				}
 				p.FeedErr(causeErr{cause})
 			}()
 			return p, nil
@@ -181,6 +195,10 @@ func genC14(o *hx.Out, tier string) {
 						trace = append(trace, "TWO-CHANNELS-OPEN")
 					}
 					trace = append(trace, "O")
+				case *gomavlib.EventFrame:
+					mu.Unlock()
+					node.WriteMessageAll(&minimal.MessageHeartbeat{Type: 1, MavlinkVersion: 3}) //nolint:errcheck
+					mu.Lock()
 				case *gomavlib.EventChannelClose:
 					open--
 					var ce causeErr
@@ -196,14 +214,22 @@ func genC14(o *hx.Out, tier string) {
 		select {
 		case <-exhausted:
 		case <-time.After(scn.Timeout):
+			scn.NoteExpired()
 			mu.Lock()
 			trace = append(trace, "TIMEOUT")
 			mu.Unlock()
 		}
-		scn.CloseWithin(node, 10*time.Second)
-		<-evdone
+		closed := scn.CloseWithin(node, 10*time.Second)
+		select {
+		case <-evdone:
+		case <-time.After(5 * time.Second):
+			scn.NoteExpired()
+		}
 		mu.Lock()
 		impl := strings.Join(trace, " ")
+		if !closed {
+			impl += " CLOSE-DID-NOT-RETURN"
+		}
 		mu.Unlock()
 		o.Add("serial lifecycle", impl, "provider", "1", strings.Join(script, " "))
 	}
